@@ -560,6 +560,11 @@ def gen_bgp(rng, n, tier):
         add(codec, [b.d])
     return out
 
+def kind_of(fam):
+    """families whose NLRI decoder is in the Coq model are compared with the model ('bgp');
+    the others are run on the implementation only and judged by the Spec oracle ('fuzz')"""
+    return 'bgp' if fam in E.ALL_MODELLED else 'fuzz'
+
 def gen_fuzz(rng, n):
     """Families whose NLRI decoders are behind the oracle (MUP, flowspec, flowspec-VPN, LS,
     SR policy, EVPN, RTC): harness only, judged by the Spec oracle; this is what exercises
@@ -576,7 +581,7 @@ def gen_fuzz(rng, n):
         if x < 0.85: return [1, rng.choice([1, 2, 3, 4]), 0, L & 0xff] + body                  # MUP: arch, type16, len
         return rbytes(rng, rng.randint(1, 40))
     for _ in range(n):
-        fam = rng.choice(E.OTHERS)
+        fam = rng.choice(E.OTHERS + E.OTHERS + E.MODELLED_R3)
         ap = rng.random() < 0.25
         codec = {'ext': False, 'two': rng.random() < 0.2, 'nh': False, 'fams': [(E.IPV4, False), (fam, ap)]}
         nl = []
@@ -602,7 +607,7 @@ def gen_fuzz(rng, n):
         d = E.update([], attrs, []).d
         if rng.random() < 0.15:
             d = E.fix_hdr(B(d[:rng.randrange(23, len(d) + 1)])).d
-        out.append({'k': 'fuzz', 'codec': codec, 'chunks': [d]})
+        out.append({'k': kind_of(fam), 'codec': codec, 'chunks': [d]})
     return out
 
 _SEEDS = None
@@ -659,7 +664,7 @@ def gen_fuzz_seeded(rng, n):
             attrs = [E.attr(0x40, 1, [0]), E.attr(0x40, 2, []), E.attr(0x80, 14, E.mp_reach_value(fam, nh, [nl]))]
         else:
             attrs = [E.attr(0x80, 15, E.mp_unreach_value(fam, [nl]))]
-        out.append({'k': 'fuzz', 'codec': codec, 'chunks': [E.update([], attrs, []).d]})
+        out.append({'k': kind_of(fam), 'codec': codec, 'chunks': [E.update([], attrs, []).d]})
     return out
 
 def gen_fuzz_sweep(rng, tier):
@@ -686,7 +691,7 @@ def gen_fuzz_sweep(rng, tier):
                 codec = {'ext': False, 'two': False, 'nh': False, 'fams': [(E.IPV4, False), (fam, False)]}
                 nh = [] if (fam & 0xff) in (133, 134) else [10, 0, 0, 1]
                 attrs = [E.attr(0x40, 1, [0]), E.attr(0x40, 2, []), E.attr(0x80, 14, E.mp_reach_value(fam, nh, [B(v)]))]
-                out.append({'k': 'fuzz', 'codec': codec, 'chunks': [E.update([], attrs, []).d]})
+                out.append({'k': kind_of(fam), 'codec': codec, 'chunks': [E.update([], attrs, []).d]})
     return out
 
 def bgp_complete_for(codec):
@@ -718,15 +723,25 @@ def oracle_bfd(c, o):
             return 'bfd::Message::decode accepted a packet failing the RFC 5880 reception checks'
     return None
 
+def _unlimit_stack():
+    """coqc evaluates 65535-byte frames with deep non-tail recursion (vm_compute on the native
+    stack): lift the soft stack limit for the coqc children"""
+    try:
+        import resource
+        hard = resource.getrlimit(resource.RLIMIT_STACK)[1]
+        resource.setrlimit(resource.RLIMIT_STACK, (hard, hard))
+    except Exception:
+        pass
+
 class Prop:
     pid = 'C03'
     props_file = 'Props/C03.v'
     required_theorems = ['bfd_decode_total', 'bfd_accepts_iff_wellformed',
                          'rtr_decode_no_panic', 'rtr_decode_progress', 'rtr_complete_frame_decided',
                          'rtr_need_only_if_incomplete', 'rtr_fragmentation_invariant',
-                         'bgp_parse_no_panic_partial', 'bgp_parse_consumes_partial',
-                         'bgp_complete_frame_decided_partial', 'bgp_need_only_if_incomplete_partial',
-                         'bgp_fragmentation_invariant_partial', 'bgp_errors_are_notifications_partial']
+                         'bgp_parse_no_panic', 'bgp_parse_consumes',
+                         'bgp_complete_frame_decided', 'bgp_need_only_if_incomplete',
+                         'bgp_fragmentation_invariant', 'bgp_errors_are_notifications']
     correspondence_name = ('Model/Bfd.v bfd_decode vs packet/src/bfd.rs Message::decode; Model/Rtr.v rtr_decode vs packet/src/rpki.rs '
                            'RtrCodec::decode; Model/Wire*.v try_parse vs packet/src/bgp.rs PeerCodec::try_parse/parse_message (with vpn.rs, '
                            'labeled.rs, mpls.rs, rd.rs); each driven chunk by chunk as run_select / FramedRead do '
@@ -737,14 +752,16 @@ class Prop:
             'attributes, label stacks of 1-40 labels, attribute-length / prefix-length / next-hop-length sweeps) plus a malformed stream and '
             'arbitrary fragmentation; a case is non-trivial when a decoder returns a message or a protocol error (not merely "need more"); '
             'distinct = distinct (decoder, AS width, sequence of message kinds with their attribute codes and error attributes, error codes); '
-            'kind "fuzz" cases (families whose NLRI decoders are not modelled) are run on the implementation only and judged by the Spec oracle')
+            'every case is compared with the model (no family is oracle-only any more); the classes enumerated on every run are tagged class_* in the input distribution, the random ones class_random_*')
     exhaustive = {'quick': False, 'thorough': False}
-    trusted_base = ['the NLRI decoders of MUP, flowspec, flowspec-VPN, BGP-LS, SR-policy, EVPN and RTC are a Section variable with the contract '
-                    '"a decoded NLRI takes at least one byte, or the decoder fails" (it cannot panic by type); the contract is exercised by fuzzing '
-                    'the real decoders through the harness (random and seeded from the repository\'s own wire test vectors), not proved',
+    trusted_base = ['every NLRI family the crate can negotiate is in the Coq model since round 3 (IPv4/IPv6 unicast+multicast, labeled, VPN, EVPN 1-5, RTC, '
+                    'SR policy, MUP 1-4, flowspec and flowspec-VPN, BGP-LS); the decoder argument [other] of the model is never reached (Proofs/WireMsg.v try_parse_other)',
+                    'NLRI values are observed through the crate\'s own encode() for EVPN, RTC, SR policy and MUP (the model gives the bytes the decoder consumed, '
+                    'which is what encode() writes back), structurally for flowspec and BGP-LS',
                     'prefix_sid.rs and tunnel_encap.rs are not reached by try_parse (the receive path keeps those attributes as bytes) and are not covered',
                     'the marker (first 16 octets of the BGP header) is not checked by the code, the model or the property',
-                    'String::from_utf8 in the FQDN capability is modelled by the Unicode well-formedness table (Model/Wire.v utf8_valid_fuel)']
+                    'String::from_utf8 in the FQDN capability is modelled by the Unicode well-formedness table (Model/Wire.v utf8_valid_fuel)',
+                    'the model is evaluated once per case for both build profiles (Proofs/WireOpen.v try_parse_profile_indep); the harness still runs the debug and the release build']
     assumptions = ['bytes are 0..255 (the harness cannot supply anything else)',
                    'the receive loop is the one of PeerSession::run_select / tokio_util FramedRead: append what was read, call the decoder until it '
                    'answers "need more" or fails (Model/Stream.v)']
@@ -790,13 +807,15 @@ class Prop:
     # ---- generation
     def gen_cases(self, rng, tier):
         q = tier == 'quick'
-        return gen_bfd(rng, 300 if q else 3000) + gen_rtr(rng, 600 if q else 6000) + gen_bgp(rng, 2500 if q else 25000, tier) + gen_fuzz(rng, 1500 if q else 30000) + gen_fuzz_seeded(rng, 2500 if q else 60000) + gen_fuzz_sweep(rng, tier)
+        from gen import c03_enum
+        return c03_enum.enum_cases() + gen_bfd(rng, 300 if q else 2000) + gen_rtr(rng, 600 if q else 3000) + gen_bgp(rng, 2500 if q else 5000, tier) + gen_fuzz(rng, 1500 if q else 2500) + gen_fuzz_seeded(rng, 2500 if q else 5000) + gen_fuzz_sweep(rng, tier)
 
     # ---- running
     def run_impl(self, cases, tier):
         return hxpacket.run_both('C03', [self.case_to_val(c) for c in cases])
 
     def run_model(self, cases, tier):
+        _unlimit_stack()
         pre = ('From RB Require Import Base.Val Base.Bytes Model.Bfd Model.Stream Model.Rtr Model.Wire Model.WireNlri '
                'Model.WireUpdate Model.WireMsg.\nOpen Scope N_scope.')
         idx = [i for i, c in enumerate(cases) if c['k'] != 'fuzz']
@@ -859,6 +878,9 @@ class Prop:
         return None
 
     def classify(self, c, obs):
+        return self._classify(c, obs) + (['class_' + c['cls']] if 'cls' in c else ['class_random_' + c['k']])
+
+    def _classify(self, c, obs):
         o = obs[0]
         if o == PANIC:
             return [c['k'] + '_panic']
